@@ -529,7 +529,12 @@ class World:
         r = self.raw.apply('xor', node_of(a.h), node_of(b.h))
         r2 = self.raw.apply('and', node_of(a.h), -node_of(b.h))
         before = len(self.raw)
-        self.raw.collect_garbage([r, -r2, node_of(a.h)])
+        roots = [r, -r2, node_of(a.h)]
+        form = self.rng.randrange(5)
+        self.raw.collect_garbage(
+            roots if form == 0 else tuple(roots) if form == 1
+            else set(roots) if form == 2 else iter(roots) if form == 3
+            else (x for x in roots))
         self.ctx.count('gc_rooted_calls')
         self.ctx.count('gc_freed_nodes', before - len(self.raw))
         ext = self.external()
